@@ -7,6 +7,11 @@ from /repo's definition files (finite, vm_compute; the bound is the table).
 K (this file) asks the REAL pint about every row:
   * Fraction registry: Quantity(0|1, name).to_root_units() (offset and scale), dimensionality,
     get_symbol, conversion to the coherent SI (or g-cm-s) unit  — exact;
+  * every public route from the registry to "factor x SI units" must tell the same standardised
+    value: get_root_units, get_base_units under the default system (mks), system='SI' and
+    system='cgs' (factor AND returned units), Quantity.to_base_units, ureg.convert, Quantity.to —
+    for the unit itself and, for exact rows, its inverse and its square (so every base unit that a
+    system replaces occurs with both signs of exponent);
   * float registry: the same numbers within 4 ulp;
   * thorough: every spelling (symbol, aliases, plural) of every row, every alias of every prefix;
   * the model on the same names (RegistryRun cases: root units, dimensionality, symbol), so the
@@ -26,7 +31,11 @@ from .common import coq_list, coq_str
 ULPS = 4
 ULPS_BASE = 4      # get_base_units / to_base_units of the float registry (root factor, then one more conversion)
 HEADER = ("From PintV Require Import Model.UC Model.Eval Model.Registry Model.RegistryRun Model.Standards "
-          "Gen.DefaultDefs Gen.DefaultReg Gen.Standards.\nOpen Scope string_scope.\n")
+          "Model.Groups Model.Systems Model.StandardsBase Gen.DefaultDefs Gen.DefaultReg Gen.Standards.\n"
+          "Open Scope string_scope.\n"
+          "Definition dflt_system : option system := match Eval.assoc \"system\" default_defaults with "
+          "Some n => system_of default_reg default_systems n | None => None end.\n")
+MAX_PER_ASPECT = 6     # unlisted violations reported one by one per aspect; the rest go into one summary
 FRAC = "pint.UnitRegistry(non_int_type=Fraction, cache_folder=None)"
 FLT = "pint.UnitRegistry(cache_folder=None)"
 
@@ -362,19 +371,23 @@ def model_failing_rows(ck):
     rc, out = ck.coq_eval("c20_rows", HEADER +
                           'Goal True. let r := eval vm_compute in (failing_rows default_reg standards) in idtac "@@ROWS" r. '
                           'let p := eval vm_compute in (map sp_name (List.filter (fun p => negb (prefix_ok default_reg p)) std_prefixes)) in idtac "@@PFX" p. '
+                          'let b := eval vm_compute in (failing_base_rows default_reg dflt_system standards) in idtac "@@BASE" b. '
                           'exact I. Qed.\n')
-    if rc != 0 or "@@ROWS" not in out:
-        return None, None, out
+    if rc != 0 or "@@ROWS" not in out or "@@BASE" not in out:
+        return None, None, None, out
     rows_txt = out.split("@@ROWS", 1)[1].split("@@PFX", 1)[0]
-    pfx_txt = out.split("@@PFX", 1)[1]
-    return re.findall(r'"([^"]+)"', rows_txt), re.findall(r'"([^"]+)"', pfx_txt), out
+    pfx_txt = out.split("@@PFX", 1)[1].split("@@BASE", 1)[0]
+    base_txt = out.split("@@BASE", 1)[1]
+    return (re.findall(r'"([^"]+)"', rows_txt), re.findall(r'"([^"]+)"', pfx_txt),
+            re.findall(r'"([^"]+)"', base_txt), out)
 
 
 def run(ck):
     thorough = ck.tier == "thorough"
     ck.rule = ("every row of data/standards.tsv (hand-curated from SI Brochure 9, NIST SP 811 / HB 44, CODATA 2022, IAU, "
                "IEC 80000-13; not from /repo): root-unit factor, offset, dimensionality, symbol and conversion to the coherent "
-               "SI unit asked of the real Fraction registry (exact) and of the float registry (<= 4 ulp); all 32 prefixes on "
+               "SI unit asked of the real Fraction registry (exact) and of the float registry (<= 4 ulp), the SI factor also through "
+               "get_root_units / get_base_units (default system, SI, cgs; unit, inverse, square) / to_base_units / convert; all 32 prefixes on "
                "several carrier units; thorough: every alias/symbol spelling of every row and prefix. "
                "non-trivial = distinct (row, spelling) or (prefix spelling, carrier) evaluated on the real registry")
     ck.assumptions += [
@@ -392,7 +405,8 @@ def run(ck):
         ck.broken.append(f"standards table unreadable: {e}")
         return
     built = ck.coq_build(["Properties/C20.vo", "Model/RegistryRun.vo"])
-    model_ok = built or ck.coq_build(["Model/Standards.vo", "Gen/Standards.vo", "Gen/DefaultReg.vo", "Model/RegistryRun.vo"])
+    model_ok = built or ck.coq_build(["Model/Standards.vo", "Model/StandardsBase.vo", "Gen/Standards.vo", "Gen/DefaultReg.vo",
+                                      "Model/RegistryRun.vo"])
 
     import pint  # noqa: F401
     ureg, uf = regk.registry(F), regk.registry(float)
@@ -457,14 +471,15 @@ def run(ck):
     ck.extra["model_vs_impl_disagreements"] = None if bad is None else len(bad)
 
     # ---- model-side search: which rows does the regenerated model registry fail?
-    mrows = mpfx = None
+    mrows = mpfx = mbase = None
     if model_ok:
-        mrows, mpfx, out = model_failing_rows(ck)
+        mrows, mpfx, mbase, out = model_failing_rows(ck)
         if mrows is None:
             ck.broken.append("model evaluation of failing_rows failed: " + out[-400:])
     ck.extra["table_rows"] = len(rows)
     ck.extra["table_prefixes"] = len(prefixes)
     ck.extra["rows_failing_in_model"] = mrows
+    ck.extra["rows_failing_in_model_through_base_units"] = mbase
     ck.extra["rows_failing_on_pint"] = {k: sorted(v) for k, v in sorted(failing.items())}
     ck.extra["listed_rows"] = t_standards.known_deviation_rows()
 
@@ -476,27 +491,50 @@ def run(ck):
             canon[ureg.get_name(n)] = n
         except Exception:
             pass
-    built_on = {n: sorted(canon[c] for c in depends_on(ureg, n) if c in canon and canon[c] != n) for n in failing}
+    # "built on" only makes sense where the definitions are wrong (the model registry fails the row too)
+    mall = (set(mrows) | set(mbase or [])) if mrows is not None else set(failing)
+    built_on = {n: sorted(canon[c] for c in depends_on(ureg, n)
+                          if c in canon and canon[c] != n and canon[c] in mall) if n in mall else []
+                for n in failing}
     ck.extra["failing_rows_not_built_on_another_failing_row"] = sorted(n for n in failing if not built_on[n])
 
     def order(item):
         m = re.match(r"row:([^:]+):", item[0])
-        return (1 if m and built_on.get(m.group(1)) else 0)
+        # plain calls on the unit itself before the inverse / square variants
+        return (1 if m and built_on.get(m.group(1)) else 0, 1 if " ** " in item[1][1].get("call", "") else 0)
+    shown, more = {}, {}
     for key, (desc, rp) in sorted(reported.items(), key=order):
         m = re.match(r"row:([^:]+):", key)
         if m and built_on.get(m.group(1)):
             rp = dict(rp, built_on_failing_rows=built_on[m.group(1)])
             desc += f" [defined in terms of the failing row(s) {', '.join(built_on[m.group(1)])}]"
+        aspect = key.rsplit(":", 1)[1]
+        if ck._match_known(key) is None and shown.get(aspect, 0) >= MAX_PER_ASPECT:
+            more.setdefault(aspect, []).append((key, desc))      # same aspect, many rows: one summary below
+            continue
+        if ck._match_known(key) is None:
+            shown[aspect] = shown.get(aspect, 0) + 1
         ck.violation(key, desc, rp)
+    for aspect, items in more.items():
+        ck.violation(f"rows:{aspect}:+{len(items)}",
+                     f"{len(items)} further table entries fail in the same way ({aspect}), first: {items[0][1]}",
+                     {"aspect": aspect, "keys": [k for k, _ in items], "what": [d for _, d in items][:40]})
     if mrows is not None:
         # a row the model fails but the real registry passes (or the reverse) is a broken tie, not a finding
-        for n in mrows:
-            if n not in failing:
-                ck.broken.append(f"row {n} fails in the model registry but passes on the real registry")
+        only_model = [n for n in sorted(mall) if n not in failing]
+        only_impl = []
         for n in sorted(failing):
-            numeric_only = failing[n] <= {"factor"} and by_name[n]["kind"] == "KFloat"
-            if n not in mrows and not numeric_only and not _float_only(reported, n):
-                ck.broken.append(f"row {n} fails on the real registry but passes in the model registry")
+            numeric_only = failing[n] <= {"factor", "base_units"} and by_name[n]["kind"] == "KFloat"
+            if n not in mall and not numeric_only and not _float_only(reported, n):
+                only_impl.append(n)
+        if only_model:
+            ck.broken.append(f"{len(only_model)} row(s) fail in the model registry but pass on the real registry: "
+                             + ", ".join(only_model[:12]))
+        if only_impl:
+            # the definitions say the standard value (the model, regenerated from them, passes) but the
+            # registry's code does not deliver it: the violation lines above carry the failing calls
+            ck.broken.append(f"{len(only_impl)} row(s) fail on the real registry but pass in the model registry "
+                             f"(the definition files are right, the registry's computation is not): " + ", ".join(only_impl[:12]))
         for n in mpfx or []:
             if not any(k.startswith(f"prefix:{n}:") for k in reported):
                 ck.broken.append(f"prefix {n} fails in the model registry but passes on the real registry")
